@@ -1,4 +1,4 @@
-import Taskpool.Inv.GoodInv
+import Taskpool.Inv.Count
 /-! # C01 — Pool size is never exceeded
 
 Only property theorems, their non-vacuity examples and refutation witnesses live in `Props/`. -/
@@ -18,6 +18,17 @@ theorem C01_live_le_size (base : Nat) (h : History) (hn : h.NoSetSize)
   have hg := (World.reachable goodC_invariant base h hn).inv i c p hc hp n hsz
   obtain ⟨v, _, hs⟩ := hg.slot
   have := live_le_held _ hg.phase
+  omega
+
+/-- **C01 (reported count).** Under the same quantifier the reported `num_running` — even together with
+`num_cancelled`, the tasks sitting in their cancel callback — never exceeds the size. -/
+theorem C01_running_le_size (base : Nat) (h : History) (hn : h.NoSetSize)
+    (i : Nat) (c : Cfg) (p : Pool) (n : Nat)
+    (hc : ((World.init base).run h).cfgs[i]? = some c) (hp : ((World.init base).run h).pools[i]? = some p)
+    (hsz : c.size0 = .fin n) : p.running.length + p.cancelledR.length ≤ n := by
+  have hg := (World.reachable goodC_invariant base h hn).inv i c p hc hp n hsz
+  obtain ⟨v, _, hs⟩ := hg.slot
+  have := inflight_le_held p hg.reg
   omega
 
 /-- size 0: nothing may ever start -/
